@@ -1,6 +1,121 @@
 (* C13 — remapping a tree's axes is substitution.
-   (import-as-substitution over the Context model is in CtxProof; this file pins the
-   algebra of collapsing consecutive affine remaps.) *)
+   Part 1: Context::import of a tree with RemapAxes / RemapAffine nodes is substitution, over
+   the Context model (proofs in CtxImport / CtxImportZ / CtxExport); part 2: the algebra of
+   collapsing consecutive affine remaps, over the reals. *)
+From Coq Require Import List Bool Arith ZArith Lia.
+From Flocq Require Import IEEE754.BinarySingleNaN.
+From FV Require Import F32 Ops Tape Alloc Flatten F32Sem CtxEval FlattenLib FlattenPass2 F32Facts Ctx.
+From FV Require Import CtxBase CtxCtors CtxSem CtxImport CtxImportZ CtxExport CtxProof.
+Import ListNotations.
+
+(* ---- part 1: import is substitution --------------------------------------------- *)
+Theorem C13_import_rec_sound :
+  forall (o : oracle) (fuel : nat) (t : list tnode),
+       no_copy t ->
+       forall (c : list (cnode f32)) (ax ay az i : nat) (c' : ctx) (n : nat),
+       arena_wf c ->
+       (ax < length c)%nat ->
+       (ay < length c)%nat ->
+       (az < length c)%nat ->
+       import_rec o fuel t c (ax, ay, az) i = Ok (c', n) ->
+       reach goodc c c' /\
+       (n < length c')%nat /\
+       arena_wf c' /\
+       (forall env env' : nat -> f32,
+        agree o c env env' ax ay az ->
+        tgood o fuel t env' i -> ctx_eval (f32_sem o) c' env n = tden o fuel t env' i).
+Proof. exact (@import_rec_sound). Qed.
+Print Assumptions C13_import_rec_sound.
+
+Theorem C13_import_sound :
+  forall (o : oracle) (t : list tnode) (root : nat) (c : list (cnode f32)) 
+         (c' : ctx) (n : nat),
+       arena_wf c ->
+       no_copy t ->
+       import o t root c = Ok (c', n) ->
+       reach goodc c c' /\
+       (n < length c')%nat /\
+       (forall env : nat -> f32,
+        tgood o (S (length t)) t env root ->
+        ctx_eval (f32_sem o) c' env n = tden o (S (length t)) t env root).
+Proof. exact (@import_sound). Qed.
+Print Assumptions C13_import_sound.
+
+Theorem C13_import_sound_wf :
+  forall (o : oracle) (t : list tnode) (root : nat) (c : list (cnode f32)) 
+         (c' : ctx) (n : nat),
+       arena_wf c ->
+       no_copy t ->
+       table_wf t ->
+       (root < length t)%nat ->
+       import o t root c = Ok (c', n) ->
+       forall env : nat -> f32,
+       tree_good o t env root -> ctx_eval (f32_sem o) c' env n = tree_den o t env root.
+Proof. exact (@import_sound_wf). Qed.
+Print Assumptions C13_import_sound_wf.
+
+Theorem C13_import_rec_sound_z :
+  forall (o : oracle) (fuel : nat) (t : list tnode),
+       no_copy t ->
+       forall (c : list (cnode f32)) (ax ay az i : nat) (c' : ctx) (n : nat),
+       arena_wf c ->
+       (ax < length c)%nat ->
+       (ay < length c)%nat ->
+       (az < length c)%nat ->
+       import_rec o fuel t c (ax, ay, az) i = Ok (c', n) ->
+       forall env env' : nat -> f32,
+       agree_z o c env env' ax ay az ->
+       tgoodz o fuel t env' i -> eqz (ctx_eval (f32_sem o) c' env n) (tden o fuel t env' i).
+Proof. exact (@import_rec_sound_z). Qed.
+Print Assumptions C13_import_rec_sound_z.
+
+Theorem C13_import_sound_z :
+  forall (o : oracle) (t : list tnode) (root : nat) (c : list (cnode f32)) 
+         (c' : ctx) (n : nat),
+       arena_wf c ->
+       no_copy t ->
+       import o t root c = Ok (c', n) ->
+       forall env : nat -> f32,
+       tgoodz o (S (length t)) t env root ->
+       eqz (ctx_eval (f32_sem o) c' env n) (tden o (S (length t)) t env root).
+Proof. exact (@import_sound_z). Qed.
+Print Assumptions C13_import_sound_z.
+
+Theorem C13_import_dedup :
+  forall (o : oracle) (t : list tnode) (root : nat) (c c' : ctx) (n : nat),
+       import o t root c = Ok (c', n) -> import o t root c' = Ok (c', n).
+Proof. exact (@import_dedup). Qed.
+Print Assumptions C13_import_dedup.
+
+Theorem C13_tfnz_tgood :
+  forall (o : oracle) (fuel : nat) (t : list tnode) (env : nat -> f32) (i : nat),
+       tfnz o fuel t env i -> tgood o fuel t env i.
+Proof. exact (@tfnz_tgood). Qed.
+Print Assumptions C13_tfnz_tgood.
+
+Theorem C13_import_zero_sign_refuted :
+  forall o : oracle,
+       let t := [TConst fzero; TInput 0; TBin BSub 0 1; TConst fone; TBin BMix 2 3] in
+       let env := fun _ : nat => fzero in
+       exists (c' : ctx) (n : nat),
+         import o t 4 [] = Ok (c', n) /\
+         to_bits (ctx_eval (f32_sem o) c' env n) <> to_bits (tree_den o t env 4) /\
+         finite (ctx_eval (f32_sem o) c' env n) /\ finite (tree_den o t env 4).
+Proof. exact (@import_zero_sign_refuted). Qed.
+Print Assumptions C13_import_zero_sign_refuted.
+
+Theorem C13_import_atan2_zero_sign :
+  forall o : oracle,
+       let t := [TConst fzero; TInput 0; TBin BSub 0 1; TConst fnone; TBin BAtan 2 3] in
+       let env := fun _ : nat => fzero in
+       exists (c' : ctx) (n : nat),
+         import o t 4 [] = Ok (c', n) /\
+         ctx_eval (f32_sem o) c' env n = libm2 o LAtan2 fnzero fnone /\
+         tree_den o t env 4 = libm2 o LAtan2 fzero fnone.
+Proof. exact (@import_atan2_zero_sign). Qed.
+Print Assumptions C13_import_atan2_zero_sign.
+
+(* ---- part 2: affine remaps collapse -------------------------------------------- *)
 From Coq Require Import Reals.
 From FV Require Import Affine.
 
